@@ -195,6 +195,7 @@ theorem enabled_of_unfinished {g : Graph} {s : St} (hw : WF g) (hI : Inv g s) :
     · cases c with
       | probe => simp [cmdChildrenFinished] at hg
       | fail => simp [cmdChildrenFinished] at hg
+      | stop => simp [cmdChildrenFinished] at hg
       | spawn c =>
         simp only [cmdChildrenFinished, beq_iff_eq] at hg
         obtain ⟨hcn, hcr⟩ := hw.spawn hun hc
